@@ -215,6 +215,9 @@ pub fn run_case(case: &Case) -> Outcome {
             if e.starts_with("VERIF:") {
                 out.violate(format!("C03 harness {}", msg_class(e)), e.clone());
             }
+            if std::env::var("VERIF_DEBUG").is_ok() {
+                eprintln!("decode error: {e}");
+            }
             format!("err {e}")
         }
         Caught::Panic { msg, loc } => {
